@@ -2,6 +2,7 @@ import GormModel.Drv.Util
 import GormModel.Model.Where
 open Lean
 namespace Gorm.Drv
+namespace HC02
 
 def parseJoiner (j : Json) : Option Joiner :=
   match jStr? j with
@@ -120,6 +121,8 @@ def parseSoft (j : Json) : Option (Bool × Option Atom) := do
   | Json.null => some (un, none)
   | v => some (un, some (← parseAtom v))
 
+end HC02
+open HC02 in
 def handleC02 (op : String) (args : Array Json) : Option Json := do
   match op with
   | "detector" => some (Json.bool (detector (← jStr? (arg args 1))))
